@@ -2,7 +2,7 @@
 From Coq Require Import List Arith ZArith NArith.
 Import ListNotations.
 From Exmex.Model Require Import Base Lexer.
-From Exmex.Proofs Require Import CommaRewrite.
+From Exmex.Proofs Require Import CommaRewrite LexSpaced LexFlex LexLocal.
 Open Scope nat_scope.
 
 (* 1. The tokenizer IS a character-level lexer (which characters form an opening or closing parenthesis, a comma or a
@@ -54,9 +54,38 @@ Example C08_example :
   exists ts, tokenize term_carrier ex_tb is_numeric_text ex_call = Ok ts /\ length ts = 37.
 Proof. vm_compute. split; [reflexivity|eexists; split; reflexivity]. Qed.
 
-(* Outside these theorems (covered by the correspondence of this check): that the characters of a rendering lex to the
-   intended events (literal matching and operator matching at token boundaries), and the parsers downstream, which see
-   identical token lists for the two notations. *)
+(* 4. TEXT level (Proofs/LexLocal.v).  A text in call notation cut into pieces -- numbers, parentheses, braced or bare variables,
+   operator names, constants -- and commas, any number of spaces behind each (also none): when the pieces and commas spell
+   the call notation of the items l and every piece is readable in front of the text that actually follows it, the text is
+   tokenized to the INFIX notation of l, where op(a, b) reads ((a) op (b)), at any nesting. *)
+Theorem C08_call_text_is_tokenized_to_infix :
+  forall (D : Type) (C : carrier D) (tb : optable) (is_literal : str -> option nat)
+         (l : list (item (D:=D))) (items : list (cpiece (D:=D) * nat)),
+  lplain l = true -> map (cevent C) (map fst items) = events_of_list l -> call_readable C tb is_literal items [] ->
+  tokenize C tb is_literal (ctexts C tb items) = Ok (infix_of_list l).
+Proof. exact @tokenize_call_local. Qed.
+
+(* non-vacuity:  max(x,min(2, y))+z  with bare variables, one space *)
+Definition ex_items : list (item (D:=term)) :=
+  [ICall 1 [ITok (TVar [120]%N)] [ICall 2 [ITok (TNum (Lit [50]%N))] [ITok (TVar [121]%N)]]; ITok (TOp 0); ITok (TVar [122]%N)].
+Definition ex_pieces : list (cpiece (D:=term) * nat) :=
+  [ (CP (PT (TOp 1)), 0); (CP (PT TOpen), 0); (CP (PBare [120]%N), 0); (CComma, 0);
+    (CP (PT (TOp 2)), 0); (CP (PT TOpen), 0); (CP (PT (TNum (Lit [50]%N))), 0); (CComma, 1); (CP (PBare [121]%N), 0); (CP (PT TClose), 0); (CP (PT TClose), 0);
+    (CP (PT (TOp 0)), 0); (CP (PBare [122]%N), 0) ].
+Example C08_example_text :
+  ctexts term_carrier ex_tb ex_pieces = [109;97;120;40;120;44;109;105;110;40;50;44;32;121;41;41;43;122]%N /\
+  tokenize term_carrier ex_tb is_numeric_text (ctexts term_carrier ex_tb ex_pieces) = Ok (infix_of_list ex_items) /\
+  infix_of_list ex_items = [TOpen; TOpen; TVar [120]%N; TClose; TOp 1; TOpen; TOpen; TOpen; TNum (Lit [50]%N); TClose; TOp 2; TOpen; TVar [121]%N; TClose; TClose; TClose; TClose; TOp 0; TVar [122]%N].
+Proof.
+  split; [reflexivity|]. split; [|reflexivity].
+  apply tokenize_call_local; [reflexivity|reflexivity|].
+  cbn [call_readable ex_pieces creadable readable]. repeat split; try reflexivity; eexists _, _; split; reflexivity.
+Qed.
+
+(* Outside these theorems (covered by the correspondence of this check): whether a concrete table and literal matcher meet
+   the local readability conditions on a concrete text, and the parsers downstream, which see identical token lists for
+   the two notations. *)
 Print Assumptions C08_tokenizer_is_lexer_then_rewrite.
 Print Assumptions C08_call_form_is_infix_at_any_nesting.
 Print Assumptions C08_same_tokens_as_infix_text.
+Print Assumptions C08_call_text_is_tokenized_to_infix.
